@@ -45,6 +45,7 @@ struct vs_dev { uint32_t idx; uint32_t alt; };
 struct vs_config {
   int policy;                    /* 0 P0, 1 P1, 2 P2; 3+r: strict priorities, r-th permutation of the first nprio threads */
   int nprio;
+  unsigned demote;               /* strict priorities: number of priority-change points offered */
   int ndev;
   struct vs_dev dev[VS_MAXDEV];
   uint32_t horizon;
